@@ -16,6 +16,7 @@ package lease_set2
 //@ import "github.com/go-i2p/common/offline_signature"
 //@ import sig "github.com/go-i2p/common/signature"
 //@ import "crypto/ed25519"
+//@ import i2pd "github.com/go-i2p/common/data"
 //@ import common "github.com/go-i2p/common/data"
 //@ import "github.com/go-i2p/common/lease"
 
@@ -86,7 +87,7 @@ package lease_set2
 
 // C02: the header fields an accepted LeaseSet2 exposes are the encoded ones:
 // destination, then published(4) expires(2) flags(2), big-endian.
-//@ lemma C02_LS2HeaderFields_T(data []byte) {
+//@ lemma C02_C03_LS2HeaderFields_T(data []byte) {
 //@   ls2, _, err := ReadLeaseSet2(data)
 //@   if err == nil {
 //@     d := ls2.Destination()
@@ -96,6 +97,13 @@ package lease_set2
 //@     assert(uint64(ls2.Published()) == val(data[off:off+4]))
 //@     assert(int(ls2.Expires()) == u16(data[off+4:off+6]))
 //@     assert(int(ls2.Flags()) == u16(data[off+6:off+8]))
+//@     // the trailing signature has the size of the key that signs: the
+//@     // transient key's type with offline keys, else the destination's
+//@     if ls2.offlineSignature != nil {
+//@       assert(len(sig.SigData(ls2.signature)) == i2pd.SpecSigLen(offline_signature.OffTransientType(ls2.offlineSignature)))
+//@     } else {
+//@       assert(len(sig.SigData(ls2.signature)) == i2pd.SpecSigLen(key_certificate.SigType(d.KeysAndCert.KeyCertificate)))
+//@     }
 //@   }
 //@ }
 
